@@ -109,6 +109,8 @@ def case(t):
             curve[key] = float(t.int(0, 4)) if ties else t.float(0.0, 1.0)
         return {"loss": curve[key]}
 
+    # failures of some trials must not change the decisions taken for the others (C13's "keeps making legal decisions")
+    with_failures = t.chance(1, 4)
     drv = dp.ProtocolDriver(
         sched,
         t,
@@ -119,6 +121,8 @@ def case(t):
         max_steps=t.weighted([(3, 40), (2, 80), (1, 15)]),
         time_keeper=tk,
         sparse_reports=sparse,
+        allow_fail=with_failures,
+        fail_weight=1,
     )
     bracket_of = {}
     labels = {lab, mode, "sparse-reports" if sparse else "dense-reports", "rush" if rush else "plain", f"brackets-{brackets}", "per-bracket" if per_bracket else "shared"}
@@ -138,6 +142,8 @@ def case(t):
                 if b > 0:
                     labels.add("bracket>0")
             continue
+        if ev.op == "fail":
+            labels.add("failure")
         if ev.op != "report":
             continue
         tid = ev.trial_id
@@ -185,6 +191,6 @@ SUBCHECKS = {
         "fn": case,
         "quick": 30000,
         "thorough": 600000,
-        "required": ["sparse-reports", "rung-decision", "stop-at-rung", "bracket>0", "eta-nonint", "tie", "rush", "per-bracket", "list", "increment"],
+        "required": ["failure", "sparse-reports", "rung-decision", "stop-at-rung", "bracket>0", "eta-nonint", "tie", "rush", "per-bracket", "list", "increment"],
     },
 }
